@@ -29,16 +29,19 @@ TIERS = {'quick': dict(runs=1120, budget_s=170, chunk=7, selftest=3),
 V = sched.V
 SCALES = [1.0, 0.1, 0.01]
 
-# ladder thresholds, calibrated on the repaired tree over 800 worlds (DESIGN.md 3.5):
-#   worst clean excess  D(s/10) - 0.2*D(s):  weak/3-D 8e-4, weak/2-D 4.7e-3,
-#   strong/3-D 8.1e-3, strong/2-D 1.06e-1;  sigma tables: 2.4e-5.   Head-room >= 5x.
+# ladder thresholds, calibrated on the repaired tree over 4 000 ladder worlds
+# (tools/calibrate_c12.py, DESIGN.md 3.5).  Worst clean excess of the estimates
+#   D(0.01) - 0.2*D(0.1):  weak/3-D 2.9e-3, weak/2-D 9.9e-3, strong/3-D 2.5e-2,
+#   strong/2-D 8.5e-2;     D(0.1) - 0.5*D(1) <= 5.3e-3 everywhere;
+# sigma tables D_sigma(0.01) - 0.2*D_sigma(0.1) <= 0 (floor 1.5e-4 kept).  Head-room >= 6x.
 RATIO = (0.5, 0.2)      # D(0.1) <= 0.5*D(1) + TAU0 and D(0.01) <= 0.2*D(0.1) + TAU0
                         # (the first step is looser: at s=1 second- and third-order terms
                         #  of opposite sign can make D(1) anomalously small)
-TAU0 = {('weak', True): 5e-3, ('weak', False): 2.5e-2,
-        ('strong', True): 5e-2, ('strong', False): 0.55}
-SD_RATIO = 0.2          # D_sigma(s/10) <= SD_RATIO * D_sigma(s) + SD_FLOOR
-SD_FLOOR = 1.5e-4
+TAU0 = {('weak', True): 2e-2, ('weak', False): 6e-2,
+        ('strong', True): 0.15, ('strong', False): 0.55}
+SD_RATIO = 0.2          # D_sigma(0.01) <= SD_RATIO * D_sigma(0.1) + SD_FLOOR; the step from
+SD_FLOOR = 1.5e-4       # s=1 is NOT judged for sigma: 5 of 4 000 clean worlds have
+                        # D_sigma(0.1) > 0.5*D_sigma(1) (higher-order terms at full scale)
 
 
 def family_of(index):
@@ -455,7 +458,7 @@ def _exec_F(sc):
             lever_note = (" [NedVelocity measurement with a lever arm: the feedforward "
                           "filter hands the measurement model no body rates, so the "
                           "omega x lever term is dropped there - finding F7]")
-        for i in (0, 1):
+        for i in (1,):
             hi, lo = met[i], met[i + 1]
             if lo['Dsd'] > SD_RATIO * hi['Dsd'] + SD_FLOOR:
                 viol.append(V('ladder-sigma',
@@ -482,8 +485,8 @@ def _exec_F(sc):
                  f'max_{r}_excess_over_tau0': max(
                      max(met[i + 1][k] - RATIO[i] * met[i][k] for k in ('D', 'Dg', 'Da'))
                      for i in (0, 1)) / tau0,
-                 'max_sigma_excess_over_floor': max(
-                     met[i + 1]['Dsd'] - SD_RATIO * met[i]['Dsd'] for i in (0, 1)) / SD_FLOOR}
+                 'max_sigma_excess_over_floor': (met[2]['Dsd'] - SD_RATIO * met[1]['Dsd'])
+                 / SD_FLOOR}
     kn = sc['knobs']
     probes = {'F_worlds': 1, 'F_' + sc['regime'] + '_aiding': 1}
     allst = [t for s_ in sc['sensors'] for t in s_['stamps']]
@@ -575,9 +578,9 @@ def describe():
             "solve(I, x - 0*dt), exact in IEEE arithmetic.",
             "(F) is knowingly weaker than the property text: the proportional law "
             "D(0.1) <= 0.5*D(1) + tau0, D(0.01) <= 0.2*D(0.1) + tau0 is demanded only down to a residual tau0 that depends "
-            "on the world class (5e-3 weak/3-D ... 0.55 strong/2-D), because the discretised "
+            "on the world class (2e-2 weak/3-D ... 0.55 strong/2-D), because the discretised "
             "error model leaves a first-order residual (DESIGN.md 3.5). A first-order defect "
-            "smaller than about 5e-3 sigma is not caught. NedVelocity lever arms are outside "
+            "smaller than about 2e-2 sigma is not caught. NedVelocity lever arms are outside "
             "the ladder's domain (finding F7).",
             "Ladder thresholds are calibrated on the repaired tree with >= 5x head-room."],
         probes_wanted=PROBES_WANTED)
